@@ -857,6 +857,36 @@ run(const Plan& p, sim::Result& res)
                           "%s with %s out of range (seg=%d index=%d tof=%d) was accepted without error", what.c_str(), names[which], s,
                           x, k);
             }
+          else if (kd == "oor_set_seg")
+            {
+              // a segment object of ANOTHER geometry (one more axial position) offered for an existing segment number:
+              // it does not fit, the call has to refuse it instead of writing over the neighbouring data
+              shared_ptr<ProjDataInfo> big(w.pdi->clone());
+              big->set_max_axial_pos_num(big->get_max_axial_pos_num(q.s) + 1, q.s);
+              bool refused;
+              if (op.arg(5) & 1)
+                {
+                  SegmentByView<float> seg = big->get_empty_segment_by_view(q.s, false, q.k);
+                  seg.fill(7.f);
+                  refused = vu::ExpectError::threw([&]() {
+                    if (w.pd->set_segment(seg) != Succeeded::yes)
+                      throw std::runtime_error("refused");
+                  });
+                }
+              else
+                {
+                  SegmentBySinogram<float> seg = big->get_empty_segment_by_sinogram(q.s, false, q.k);
+                  seg.fill(7.f);
+                  refused = vu::ExpectError::threw([&]() {
+                    if (w.pd->set_segment(seg) != Succeeded::yes)
+                      throw std::runtime_error("refused");
+                  });
+                }
+              sim::probe("segment_of_other_size_offered");
+              if (!refused)
+                sim::fail("out_of_range_not_reported:set_segment:axial_size",
+                          "set_segment accepted a segment %d with one axial position more than the data have", q.s);
+            }
           else if (kd == "observe" || kd == "reopen")
             {
               // handled below, outside the fault window of the writer
@@ -939,7 +969,7 @@ gen(uint64_t seed, const std::string& tier, long idx)
   static const char* writes[] = { "set_bin", "set_bin", "set_bin", "set_sino", "set_view", "set_segv", "set_segs",
                                   "set_rel", "fill_const", "fill_other", "fill_from" };
   static const char* others[] = { "get", "get_bin", "oor_set_bin", "oor_get_bin", "oor_get_view", "oor_get_sino", "oor_get_seg",
-                                  "observe", "reopen" };
+                                  "observe", "reopen", "oor_set_seg" };
   const int nops = (int)r.range(1, r.chance(0.7) ? 8 : (thorough ? 40 : 20));
   // run class: 0 fault-free, 1 transparent faults, 2 one error fault
   const int cls = (int)r.below(10) < 5 ? 0 : (r.chance(0.7) ? 1 : 2);
